@@ -113,6 +113,9 @@ pub struct Ctx {
     pub toks: HashMap<u64, TokState>,
     /// messages about ownership violations observed by the instrumented `Drop` impls
     pub violations: Vec<String>,
+    /// (key token, key address, value token, value address) of the objects handed to the `retain`
+    /// predicate / the `mutate` closure during the current operation
+    pub shown: Vec<(u64, usize, u64, usize)>,
 }
 
 thread_local! {
@@ -155,6 +158,7 @@ pub fn begin_op(panic_at: Option<(Kind, u64)>) {
         c.counts = [0; 8];
         c.panic_at = panic_at;
         c.panicked = None;
+        c.shown.clear();
     });
 }
 
@@ -455,11 +459,14 @@ impl fmt::Debug for MV {
 
 pub fn note_pred(k: &MK, v: &MV) {
     let (kt, vt) = (k.tok, v.tok);
+    // where the objects shown to the predicate live (must be the entry inside the cache, not a copy)
+    with_ctx(|c| c.shown.push((kt, k as *const MK as usize, vt, v as *const MV as usize)));
     callback(Kind::Pred, |c| c.events.push(Ev::Pred(kt, vt)));
 }
 
 pub fn note_closure(v: &MV) {
     let vt = v.tok;
+    with_ctx(|c| c.shown.push((0, 0, vt, v as *const MV as usize)));
     callback(Kind::Closure, |c| c.events.push(Ev::Closure(vt)));
 }
 
@@ -471,9 +478,12 @@ pub enum HKind {
     Const,
     Mod4,
     Ident,
+    /// a well-mixing hasher with a per-instance seed; `Clone` of the builder draws a *new* seed, so a
+    /// cloned cache must bucket its entries with its own builder, never with its source's
+    Reseed,
 }
 
-pub const HKINDS: [HKind; 5] = [HKind::Default, HKind::Mix, HKind::Const, HKind::Mod4, HKind::Ident];
+pub const HKINDS: [HKind; 6] = [HKind::Default, HKind::Mix, HKind::Const, HKind::Mod4, HKind::Ident, HKind::Reseed];
 
 impl HKind {
     pub fn name(self) -> &'static str {
@@ -483,6 +493,7 @@ impl HKind {
             HKind::Const => "const",
             HKind::Mod4 => "mod4",
             HKind::Ident => "ident",
+            HKind::Reseed => "reseed",
         }
     }
 
@@ -491,21 +502,33 @@ impl HKind {
     }
 }
 
-#[derive(Clone)]
 pub struct HB {
     pub kind: HKind,
     default: hashbrown::hash_map::DefaultHashBuilder,
+    seed: u64,
 }
 
 impl HB {
     pub fn new(kind: HKind) -> HB {
-        HB { kind, default: Default::default() }
+        HB { kind, default: Default::default(), seed: 0x5eed }
+    }
+}
+
+impl Clone for HB {
+    fn clone(&self) -> HB {
+        let seed = if self.kind == HKind::Reseed {
+            self.seed.wrapping_mul(6364136223846793005).wrapping_add(1442695040888963407)
+        } else {
+            self.seed
+        };
+        HB { kind: self.kind, default: self.default.clone(), seed }
     }
 }
 
 pub enum HH {
     Default(<hashbrown::hash_map::DefaultHashBuilder as BuildHasher>::Hasher),
     Acc(HKind, u64),
+    Seeded(u64, u64),
 }
 
 impl BuildHasher for HB {
@@ -514,6 +537,7 @@ impl BuildHasher for HB {
     fn build_hasher(&self) -> HH {
         match self.kind {
             HKind::Default => HH::Default(self.default.build_hasher()),
+            HKind::Reseed => HH::Seeded(self.seed, 0),
             k => HH::Acc(k, 0),
         }
     }
@@ -523,6 +547,12 @@ impl Hasher for HH {
     fn finish(&self) -> u64 {
         match self {
             HH::Default(h) => h.finish(),
+            HH::Seeded(seed, x) => {
+                let mut z = (x ^ seed).wrapping_add(0x9e3779b97f4a7c15);
+                z = (z ^ (z >> 30)).wrapping_mul(0xbf58476d1ce4e5b9);
+                z = (z ^ (z >> 27)).wrapping_mul(0x94d049bb133111eb);
+                z ^ (z >> 31)
+            }
             HH::Acc(HKind::Const, _) => 0,
             HH::Acc(HKind::Mod4, x) => x % 4,
             HH::Acc(HKind::Ident, x) => *x,
@@ -539,7 +569,7 @@ impl Hasher for HH {
     fn write(&mut self, bytes: &[u8]) {
         match self {
             HH::Default(h) => h.write(bytes),
-            HH::Acc(_, x) => {
+            HH::Acc(_, x) | HH::Seeded(_, x) => {
                 for b in bytes {
                     *x = (*x << 8) | (*b as u64);
                 }
@@ -550,7 +580,7 @@ impl Hasher for HH {
     fn write_u32(&mut self, i: u32) {
         match self {
             HH::Default(h) => h.write_u32(i),
-            HH::Acc(_, x) => *x = i as u64,
+            HH::Acc(_, x) | HH::Seeded(_, x) => *x = i as u64,
         }
     }
 }
